@@ -203,8 +203,8 @@ def w1(ctx, Fr, F):
                     ok = bool(calls) and all(oks)
                     if not ok:
                         # fall back to the interval analysis (S4): argument ranges at the call
-                        from . import ranges
-                        ra = ranges.Analysis(fn).run()
+                        from . import ranges as _rng
+                        ra = _rng.Analysis(fn).run()
                         iv = ra.args_at_call(bi)
                         found["intervals"] = iv
                         ok = len(iv) == 2 and all(v is not None and 0 <= v[0] and v[1] <= 7 for v in iv)
@@ -472,11 +472,11 @@ ASSUMED = {
 def w1_ranges(ctx, F):
     """Overflow-checking configuration: every arithmetic assert inside Game::new itself (the importer's own arithmetic on input-derived
     values) is discharged by the interval analysis (S4), except the enumerated assumption."""
-    from . import ranges
+    from . import ranges as _rng
     fn = F.fn(NEW)
     if not F.d.get("overflow_checks"):
         return   # this fact set has no overflow asserts (release configuration)
-    a = ranges.Analysis(fn).run()
+    a = _rng.Analysis(fn).run()
     n = 0
     seen = {}
     for b, msg, ok, detail, line in a.obligations:
